@@ -1369,3 +1369,52 @@ REVERSE = contract(
          'order (stand-in sort-grid: index / count / stable sort after reverse())')
 REVERSE.canary_witness = [C0 == 1, L0 == 1]       # a collection of one member: the quantifiers range over one position
 CONTRACTS = CONTRACTS + [REVERSE]
+
+
+# ---- sort(key, reverse): the members in the order python's sorted() gives them, front to back (C19) ---------------------------
+def _m_sorted(ex, seq, key=None, reverse=False):
+    """python's sorted() (assumed): some sequence of the same length -- which one is the builtin's business (a stable
+    ascending / descending order by key: stand-in sort-grid); what matters here is that it is taken over as it is and that
+    the caller's key and direction reach it"""
+    z = seq.cols[0]
+    r = ex.fresh('sorted', S)
+    ex.assume(z3.Length(r) == z3.Length(z))
+    ex.ghost['sorted.result'] = SeqV(r, 'any')
+    ex.ghost['sorted.key'] = key
+    ex.ghost['sorted.reverse'] = reverse
+    ex.ghost['sorted.input'] = SeqV(z, 'any')
+    return _SymSeq([r], names=('__id__',))
+
+
+def _is_sorted_result(ex, d):
+    r = ex.ghost.get('sorted.result')
+    if r is None:
+        return False
+    p, ids, cnt = d.fields['present'], d.fields['ids'], d.fields['count']
+    return And(dense(p, cnt, L0), ForAll([_k], Implies(And(_k >= 0, _k < L0), Select(ids, _k) == r.z[_k])))
+
+
+def _sorted_got(ex, key, reverse):
+    k_ok = ex.ghost.get('sorted.key') is key or (isinstance(key, Obj) and isinstance(ex.ghost.get('sorted.key'), Obj) and
+                                                 ex.ghost['sorted.key'].uid == key.uid)
+    rv = ex.ghost.get('sorted.reverse')
+    from pyvc.core import tobool
+    r_ok = (rv is reverse) if isinstance(rv, bool) and isinstance(reverse, bool) else (tobool(rv) == tobool(reverse))
+    inp = ex.ghost.get('sorted.input')
+    walked = ForAll([_i], Implies(And(_i >= 0, _i < C0), inp.z[_i] == Select(ID0, _i))) if inp is not None else False
+    return And(z3.BoolVal(bool(k_ok)), r_ok, walked)
+
+
+SORT = contract(
+    id='type.univ::SequenceOfAndSetOfBase.sort', qual='SequenceOfAndSetOfBase.sort', properties=['C19'],
+    params=dict(componentType=PConst(None), self=PDerived(_self_iterable),
+                key=POneOf([None, Obj('function', {}, name='key')]), reverse=PBool()),
+    globals=dict(G, ordered0=ORDERED0, sorted=FnV(_m_sorted, 'sorted'), enumerate=FnV(_m_enumerate, 'enumerate'),
+                 dict=FnV(_m_dict, 'dict'), is_sorted_result=FnV(_on_dict(_is_sorted_result), 'is_sorted_result'),
+                 sorted_got=FnV(_sorted_got, 'sorted_got')),
+    requires=['not schema', 'dense0', 'ordered0'],
+    ensures=[('members-in-sorted-order-front-to-back', 'is_sorted_result(self._componentValues)'),
+             ('sorted-sees-the-members-in-position-order-with-the-callers-key-and-direction', 'sorted_got(key, reverse)')],
+    note='sorted() is python\'s (assumed: stable, by key, ascending or descending); this contract is about the plumbing around it')
+SORT.canary_witness = [C0 == 1, L0 == 1]
+CONTRACTS = CONTRACTS + [SORT]
